@@ -61,6 +61,8 @@ PSY_INTERNAL:
     bool hasDefAsTypeName(const std::string& name) const;
     bool hasDefAsNonTypeName(const std::string& name) const;
 
+    bool isIndexed(const SyntaxNode* node) const;
+
 private:
     using NameUseAndDef = std::unordered_map<std::string, std::pair<bool, size_t>>;
     using Enclosure = std::tuple<NameUseAndDef, NameUseAndDef>;
@@ -73,8 +75,6 @@ private:
     mutable EnclosureIndex enclosureIdx_;
 
     Enclosure* currentEnclosure() const;
-
-    bool isIndexed(const SyntaxNode* node) const;
 
     template <size_t, size_t> void catalogUse_CORE(const std::string& name);
     template <size_t> void catalogDef_CORE(const std::string& name);
